@@ -89,6 +89,12 @@ class UserExc(Exception):
         self.n = n
 
 
+# C15: when set, every user-level callback of the universe (registered flatten / unflatten functions,
+# key __eq__ / __hash__ / __lt__ / __repr__) reports its invocation here first (`hook(kind, obj)`; it may
+# raise to inject a fault)
+CALLBACK_HOOK = None
+
+
 class KeyBase:
     __slots__ = ('rank', 'uid')
 
@@ -97,13 +103,19 @@ class KeyBase:
         self.uid = uid
 
     def __repr__(self):
+        if CALLBACK_HOOK is not None:
+            CALLBACK_HOOK('key-repr', self)
         return f'{type(self).__name__}({self.rank},{self.uid})'
 
     # equality "by identity", expressed through the uid so that it survives pickling
     def __eq__(self, other):
+        if CALLBACK_HOOK is not None:
+            CALLBACK_HOOK('key-eq', self)
         return type(other) is type(self) and other.uid == self.uid
 
     def __hash__(self):
+        if CALLBACK_HOOK is not None:
+            CALLBACK_HOOK('key-hash', self)
         return hash(('KeyBase', self.uid))
 
     def __reduce__(self):
@@ -143,6 +155,8 @@ def key_class(tag: str, orderable: bool) -> type:
         ns: dict = {'__slots__': (), '__module__': module, '__qualname__': name}
         if orderable:
             def __lt__(self, other):
+                if CALLBACK_HOOK is not None:
+                    CALLBACK_HOOK('key-lt', self)
                 if type(other) is type(self):
                     return self.rank < other.rank
                 return NotImplemented
@@ -239,6 +253,8 @@ def make_flatten(cls_kind: int, mode: str):
         return named_entries(n) if mode == 'named' else shifted_entries(n)
 
     def flatten(obj):
+        if CALLBACK_HOOK is not None:
+            CALLBACK_HOOK('flatten', obj)
         if cls_kind == 0:
             children, md, quirk = tuple(obj.children), obj.md, obj.quirk
         else:
@@ -268,11 +284,15 @@ def make_flatten(cls_kind: int, mode: str):
 
 
 def make_unflatten(cls_kind: int, cls):
-    if cls_kind == 0:
-        return lambda md, children: cls(md, list(children), 'ok')
-    if cls_kind == 1:
-        return lambda md, children: cls(*children)
-    return lambda md, children: cls(tuple(children))
+    def unflatten(md, children):
+        if CALLBACK_HOOK is not None:
+            CALLBACK_HOOK('unflatten', cls)
+        if cls_kind == 0:
+            return cls(md, list(children), 'ok')
+        if cls_kind == 1:
+            return cls(*children)
+        return cls(tuple(children))
+    return unflatten
 
 
 def class_of(cls_kind: int, idx: int):
